@@ -382,11 +382,28 @@ def _lp_case(rng: Rng, tier, force=None):
             n = force["n"]
         if kind == "hole":
             n = 98
-        g = _unit_points(rng, n, "scattered" if kind == "unsorted" else kind)
+        if kind == "integers":
+            # integer-valued sampling points (data coordinates lo + S*g with integer lo, S): day numbers 1..365, or 0..2^30
+            if dom not in ("doy", "giga"):
+                dom = "doy"
+                lo, scale = DOMAINS[dom]
+            S = int(scale)
+            n = min(n, 64)
+            step = 1 if dom == "doy" else 2 ** 20
+            g = [Fraction(j * step, S) for j in sorted(rng.sample(range(0, S // step + 1), n))]
+        else:
+            g = _unit_points(rng, n, "scattered" if kind == "unsorted" else kind)
         g2 = None
     else:
-        kind = rng.choice(["grid", "scattered", "scattered", "unsorted"])
-        if kind == "grid":
+        kind = force.get("design", rng.choice(["grid", "scattered", "scattered", "unsorted", "ties2d"]))
+        if kind == "ties2d":
+            # replicated sampling points with unequal multiplicities: draws with replacement from a small lattice
+            n = force.get("n", rng.choice([12, 20, 30]))
+            lat = [(Fraction(a, 4), Fraction(b, 4)) for a in range(5) for b in range(5)]
+            base = rng.sample(lat, max(6, n // 3))
+            pts = [rng.choice(base) for _ in range(n)]
+            g, g2 = [p_[0] for p_ in pts], [p_[1] for p_ in pts]
+        elif kind == "grid":
             m1, m2 = rng.randint(3, 9 if not big else 14), rng.randint(3, 9 if not big else 14)
             a1 = _unit_points(rng, m1, rng.choice(["uniform", "scattered"]))
             a2 = _unit_points(rng, m2, rng.choice(["uniform", "scattered"]))
@@ -471,10 +488,12 @@ def _lp_case(rng: Rng, tier, force=None):
     if dim == 1:
         case["coefs"] = [rs(c) for c in coefs]
         case["dom_lo_scale"] = [rs(lo), rs(scale)]
-        if force.get("own") or (kind.startswith(("uniform", "nearly_uniform")) and n <= 65 and rng.random() < 0.5):
+        if force.get("own") or (kind.startswith(("uniform", "nearly_uniform", "ties", "integers")) and n <= 65 and rng.random() < 0.5):
             case["own"] = True   # also evaluated at its own sampling points (x_new=None and x_new=x)
     if dim == 2:
         case["x2"] = [rs(t) for t in X(g2)]
+        if force.get("own") or (kind == "ties2d" and rng.random() < 0.7):
+            case["own"] = True
         case["q2"] = [rs(t) for t in X(gq2)]
         case["b2"] = rs(b2)
     return case
@@ -497,6 +516,14 @@ def gen_cases(rng: Rng, tier):
         head.append(dict(dim=1, kernel=kernel, degree=degree, design=f"nearly_uniform:{r}", own=True, n=[17, 33, 40, 65][j % 4],
                          hu=[Fraction(1, 8), Fraction(3, 16), Fraction(1, 4)][j % 3], dom=["unit", "doy", "neg", "shift1000"][j % 4]))
     head.append(dict(dim=1, kernel="epanechnikov", degree=1, design="uniform", own=True, n=33, hu=Fraction(1, 8), dom="unit"))
+    # replicated sampling points with unequal multiplicities, query points omitted / the design itself / the distinct points
+    for j, (kernel, degree) in enumerate([("epanechnikov", 0), ("tricube", 1), ("gaussian", 2), ("bisquare", 1)]):
+        head.append(dict(dim=1, kernel=kernel, degree=degree, design="ties", own=True, n=[12, 20, 33, 50][j], hu=Fraction(1, 2), dom=["unit", "doy", "neg", "shift1000"][j]))
+        head.append(dict(dim=2, kernel=kernel, degree=min(degree, 1), design="ties2d", own=True, n=[12, 20, 30, 20][j], hu=Fraction(3, 4)))
+    # integer-valued sampling points handed over with integer dtypes (int64, int32) and as float32 / float64
+    for j, (kernel, degree) in enumerate([("epanechnikov", 1), ("tricube", 2), ("gaussian", 3), ("bisquare", 1)]):
+        head.append(dict(dim=1, kernel=kernel, degree=degree, design="integers", own=(j % 2 == 0), n=[20, 33, 40, 64][j],
+                         hu=[Fraction(1, 4), Fraction(1, 8), Fraction(1, 4), Fraction(1, 16)][j], dom=["doy", "doy", "giga", "doy"][j]))
     # absolute tolerances where only the RELATIVE size of the weights matters: holes in the design, query points far from
     # every observation with the non-compact kernel, tiny bandwidths (the nano / milli domains)
     for degree, dom in ((0, "unit"), (1, "doy"), (0, "nano"), (1, "unit"), (0, "shift1000"), (0, "giga")):
@@ -511,6 +538,9 @@ def gen_cases(rng: Rng, tier):
             n_entry += 1
     for entry, dom in (("dense_smooth", "unit"), ("dense_smooth", "doy"), ("dense_mean", "neg")):
         yield c06_entries.gen_entry_case(rng, tier, dict(entry=entry, dom=dom, own=True))
+        n_entry += 1
+    for entry in ("dense_smooth", "dense_mean", "dense_smooth2d"):
+        yield c06_entries.gen_entry_case(rng, tier, dict(entry=entry, dom="doy", intgrid=True))
         n_entry += 1
     for k in range(n - len(head) - n_entry):
         r = k % 13
@@ -703,8 +733,8 @@ def run_impl(case):
         sc_out[str(e)] = vals
     out["wscaled"] = sc_out
     # evaluation at the design's own points (x_new=None -> unique sorted sampling points; x_new = the sampling points)
-    if case.get("own") and case["dim"] == 1:
-        ux = np.unique(x)
+    if case.get("own"):
+        ux = np.unique(x, axis=0)
         out["own_none"] = lp.predict(y=y, x=x).tolist()
         out["own_x"] = lp.predict(y=y, x=x, x_new=x.copy()).tolist()
         out["own_poly"] = lp.predict(y=yp, x=x).tolist()
@@ -778,6 +808,33 @@ def run_impl(case):
                             lp.predict(y=yint, x=x, x_new=qa).tolist()]
     out["arraylike_f32"] = [np.asarray(lp.predict(y=y.astype(np.float32), x=x, x_new=qa), dtype=float).ravel().tolist(),
                             lp.predict(y=y.astype(np.float32).astype(float), x=x, x_new=qa).tolist()]
+    # value dtypes of the array arguments: an integer-valued design handed over as int64 / int32 / float32, integer-valued
+    # query points as int64 — the same numbers must give the same fit
+    if np.all(x == np.round(x)) and np.abs(x).max() < 2 ** 31:
+        dt = {}
+        qf = q[:3]
+        for name, xx in (("x=int64", x.astype(np.int64)), ("x=int32", x.astype(np.int32)),
+                         ("x=float32", x.astype(np.float32) if np.all(x.astype(np.float32).astype(float) == x) else None)):
+            if xx is None:
+                continue
+            try:
+                dt[name] = np.asarray(lp.predict(y=y, x=xx, x_new=qf), dtype=float).ravel().tolist()
+            except Exception as e:  # noqa: BLE001
+                dt[name] = f"{type(e).__name__}: {str(e)[:80]}"
+        qint = np.array([t for t in (q if q.ndim == 1 else [r for r in q if np.all(r == np.round(r))]) if np.all(t == np.round(t))])
+        if len(qint):
+            ref_q = lp.predict(y=y, x=x, x_new=qint.astype(float)).tolist()
+            for name, xx in (("x_new=int64", x), ("x=int64,x_new=int64", x.astype(np.int64))):
+                try:
+                    dt[name] = [np.asarray(lp.predict(y=y, x=xx, x_new=qint.astype(np.int64)), dtype=float).ravel().tolist(), ref_q]
+                except Exception as e:  # noqa: BLE001
+                    dt[name] = f"{type(e).__name__}: {str(e)[:80]}"
+        if case.get("own"):
+            try:
+                dt["x=int64,x_new omitted"] = [np.asarray(lp.predict(y=y, x=x.astype(np.int64)), dtype=float).ravel().tolist(), lp.predict(y=y, x=x).tolist()]
+            except Exception as e:  # noqa: BLE001
+                dt["x=int64,x_new omitted"] = f"{type(e).__name__}: {str(e)[:80]}"
+        out["dtypes"] = dt
     # memory layout: strided (non-contiguous) views and Fortran order of the same numbers
     xs, ys, qs = np.repeat(x, 2, axis=0)[::2], np.repeat(y, 2)[::2], np.repeat(q, 2, axis=0)[::2]
     if case["dim"] == 2:
@@ -825,8 +882,12 @@ def model_lines(case, impl):
         if case.get("own"):
             ls.append(f"lp1 {case['kernel']} {case['h']} {case['degree']} {J(case['x'])} {J(case['y'])} {R(sorted(set(_Fv(case['x']))))}")
         return ls
-    return [f"lp2 {case['kernel']} {case['h']} {case['degree']} {J(case['x'])} {J(case['x2'])} {J(case['y'])} {J(case['q'])} {J(case['q2'])}",
-            f"lp2 {case['kernel']} {case['h']} {case['degree']} {R(xr[0])} {R(xr[1])} {J(case['y'])} {R(qc[0])} {R(qc[1])}"]
+    ls = [f"lp2 {case['kernel']} {case['h']} {case['degree']} {J(case['x'])} {J(case['x2'])} {J(case['y'])} {J(case['q'])} {J(case['q2'])}",
+          f"lp2 {case['kernel']} {case['h']} {case['degree']} {R(xr[0])} {R(xr[1])} {J(case['y'])} {R(qc[0])} {R(qc[1])}"]
+    if case.get("own"):
+        urows = sorted(set(zip(_Fv(case["x"]), _Fv(case["x2"]))))          # = np.unique(x, axis=0): rows in lexicographic order
+        ls.append(f"lp2 {case['kernel']} {case['h']} {case['degree']} {J(case['x'])} {J(case['x2'])} {J(case['y'])} {R([r[0] for r in urows])} {R([r[1] for r in urows])}")
+    return ls
 
 
 def parse_model(case, outs):
@@ -916,8 +977,9 @@ def compare(case, impl, model):
             ds.append(f"query {j} (x0={case['q'][j]}{',' + case['q2'][j] if case['dim'] == 2 else ''}): impl {f!r} vs exact weighted least squares {float(Fraction(m))!r} (response scale {sc:.3g}, cond {impl['_cond'][j]:.3g})")
     if "est_own" in model and "own_none" in impl:
         for j, (f, m, c, k) in enumerate(zip(impl["own_none"], model["est_own"], impl["_own_cond"], impl["_own_npos"])):
-            if m != "s" and np.isfinite(c) and c <= COND_OK and k >= case["degree"] + 1 and not close(f, Fraction(m), sc, RTOL_MODEL):
-                ds.append(f"evaluation at the design's own points (x_new=None), point {j}: impl {f!r} vs exact weighted least squares {float(Fraction(m))!r} (design {case['design']}, n={case['n']}, h={case['h']})")
+            need_o = case["degree"] + 1 if case["dim"] == 1 else len(monos2(case["degree"]))
+            if m != "s" and np.isfinite(c) and c <= COND_OK and k >= need_o and not close(f, Fraction(m), sc, RTOL_MODEL):
+                ds.append(f"evaluation at the design's own points (x_new omitted), point {j}: impl {f!r} vs exact weighted least squares {float(Fraction(m))!r} (design {case['design']}, n={case['n']}, h={case['h']})")
                 break
     need = case["degree"] + 1 if case["dim"] == 1 else len(monos2(case["degree"]))
     for j, (f, m, c, k) in enumerate(zip(impl["inpl4"], model["est4"], impl["_cond4"], impl["_npos4"])):
@@ -1011,7 +1073,20 @@ def oracle(case, impl):
         if not near(impl["single"][j], f, sc, 1e-10):
             bad("pointwise", f"estimate {f!r} in a batch vs {impl['single'][j]!r} alone at {where}", dom)
     # evaluation at the design's own points: WLS, polynomial reproduction, x_new=None vs x_new=x
-    if "own_none" in impl:
+    if "own_none" in impl and case["dim"] == 2:
+        xs_ = _arr(case, "x", "x2")
+        ux_, inv_ = np.unique(xs_, axis=0, return_inverse=True)
+        inv_ = np.asarray(inv_).ravel()
+        need2 = len(monos2(case["degree"]))
+        for j in range(len(ux_)):
+            okj = np.isfinite(impl["_own_cond"][j]) and impl["_own_cond"][j] <= COND_OK and impl["_own_npos"][j] >= need2
+            if okj and not near(impl["own_none"][j], impl["_own_ref"][j], sc):
+                bad("wls", f"query points omitted: at the distinct sampling point {ux_[j].tolist()} the estimate is {impl['own_none'][j]!r} but the kernel-weighted least squares of ALL observations (ties with their multiplicities) gives {impl['_own_ref'][j]!r} ({case['kernel']}, degree {case['degree']}, h={case['h']}, n={case['n']}, {len(ux_)} distinct points)", dom + ["own_points"])
+        for i_, f in enumerate(impl["own_x"]):
+            if not near(f, impl["own_none"][inv_[i_]], sc, 1e-10):
+                bad("pointwise", f"x_new = the sampling points gives {f!r} at row {i_}, x_new omitted gives {impl['own_none'][inv_[i_]]!r}", dom + ["own_points"])
+                break
+    if "own_none" in impl and case["dim"] == 1:
         xs_ = np.array(fl(_Fv(case["x"])))
         ux_, inv_ = np.unique(xs_, return_inverse=True)
         lo_, scl_ = F(case["dom_lo_scale"][0]), F(case["dom_lo_scale"][1])
@@ -1078,6 +1153,13 @@ def oracle(case, impl):
             a_, b_ = impl[key]
             if not all(near(f, g, max(sc, 8 * sc if key == "arraylike_int" else sc), tolr) for f, g in zip(a_, b_)):
                 bad("array_like_inputs", f"{key[10:]} responses: estimates {a_} but the same numbers as float64 give {b_}", dom)
+    for name, r in impl.get("dtypes", {}).items():
+        if isinstance(r, str):
+            bad("dtype_inputs", f"{name}: raises {r} (the same numbers as float64 are accepted)", dom)
+            continue
+        a_, b_ = (r, impl["base"][:3]) if not (len(r) == 2 and isinstance(r[0], list)) else r
+        if len(a_) != len(b_) or not all(near(f, g, sc, 1e-9) for f, g in zip(a_, b_)):
+            bad("dtype_inputs", f"{name}: estimates {a_[:3]} but the same numbers as float64 give {b_[:3]} ({case['kernel']}, degree {case['degree']}, h={case['h']}, n={case['n']}, design {case['design']})", dom)
     for j, (f, g) in enumerate(zip(impl["strided"], impl["base"])):
         if not near(f, g, sc, 1e-10):
             bad("memory_layout", f"strided / Fortran-ordered inputs give {f!r}, contiguous ones {g!r} (query {j})", dom)
